@@ -50,6 +50,12 @@ def custom_definition(name):
         M = sympy.Matrix([[sympy.exp(sympy.I * a), 0, 0, 0], [0, sympy.cos(b), -sympy.sin(b), 0],
                           [0, sympy.sin(b), sympy.cos(b), 0], [0, 0, 0, sympy.exp(-sympy.I * a * 2)]])
         return C.CustomGateDefinition(name, M, (a, b))
+    if name == "custom1s":      # one parameter under square roots: real only for 0 <= alpha <= 1, complex (but perfectly well defined) outside
+        M = sympy.Matrix([[sympy.sqrt(a), -sympy.sqrt(1 - a)], [sympy.sqrt(1 - a), sympy.sqrt(a)]])
+        return C.CustomGateDefinition(name, M, (a,))
+    if name == "custom1l":      # log / acos entries
+        M = sympy.Matrix([[sympy.log(a), 0], [0, sympy.acos(a)]])
+        return C.CustomGateDefinition(name, M, (a,))
     if name == "custom1q":      # one qubit, one parameter named gamma (shadows sympy.gamma)
         g = sympy.Symbol("gamma")
         M = sympy.Matrix([[1, 0], [0, sympy.exp(sympy.I * g)]])
